@@ -724,8 +724,10 @@ func TestVFC13Shape(t *testing.T) {
 
 		res := vfCheckUpgrade(t, c)
 		if res.ok {
+			vfC13.Class("shape:upgraded")
 			vfSample("shape_upgraded", c, res, vfMap{"case": desc})
 		} else {
+			vfC13.Class("shape:refused")
 			_, _, merr := vfMigrate(t, c.dirs, c.body, vfLast)
 			vfSample("shape_refused", c, res, vfMap{"case": desc, "error": fmt.Sprint(merr)})
 		}
@@ -821,6 +823,9 @@ func TestVFC13Bytes(t *testing.T) {
 		}
 
 		res := vfCheckUpgrade(t, c)
+		if derr == nil && res.ok {
+			vfC13.Class("bytes:parses_and_upgraded")
+		}
 		if derr != nil && res.ok {
 			t.Fatalf("Migrate accepted a text the YAML library rejects (%v):\n%s", derr, body)
 		}
